@@ -15,8 +15,6 @@ Definition as_flavour (v : val) : option flavour :=
   | VZ 0 => Some (F64 false) | VZ 1 => Some (F64 true) | VZ 2 => Some F128
   | _ => None
   end.
-Definition is128 (f : flavour) : bool := match f with F128 => true | _ => false end.
-Definition flavours : list flavour := [F64 false; F64 true; F128].
 
 Definition in_i32b (i : Z) : bool := (- 2^31 <=? i) && (i <? 2^31).
 
@@ -99,6 +97,30 @@ Definition ops_C01_wide : list opdef := [
        | [ws] => match as_zs ws with
            | Some ws => let '(x, y, z) := spec_indexes ws in VL [vzs x; vzs y; vzs z]
            | _ => VBad end
+       | _ => VBad end) |};
+  (* the same on a run-length encoded bitmap [[count, word], ...] (large bitmaps with long constant runs) *)
+  {| op_name := "bitmap.IndexRank/rle";
+     op_run := fun a => match a with
+       | [runs] => match as_pairs runs with
+           | Some runs => let ws := expand_rle runs in
+               VL [vzs (IndexRank64 ws false); vzs (IndexRank64 ws true); vzs (IndexRank128 ws)]
+           | _ => VBad end
+       | _ => VBad end;
+     op_spec := fun_spec (fun a => match a with
+       | [runs] => match as_pairs runs with
+           | Some runs => let '(x, y, z) := spec_indexes (expand_rle runs) in VL [vzs x; vzs y; vzs z]
+           | _ => VBad end
+       | _ => VBad end) |};
+  {| op_name := "bitmap.Rank/rle";
+     op_run := fun a => match a with
+       | [runs; f; i] => match as_pairs runs, as_flavour f, as_z i with
+           | Some runs, Some f, Some i => if in_i32b i then vq (query32 f (expand_rle runs) i) else VBad
+           | _, _, _ => VBad end
+       | _ => VBad end;
+     op_spec := fun_spec (fun a => match a with
+       | [runs; f; i] => match as_pairs runs, as_flavour f, as_z i with
+           | Some runs, Some f, Some i => vq (spec_query32 (is128 f) (expand_rle runs) i)
+           | _, _, _ => VBad end
        | _ => VBad end) |};
   (* histories: several bitmaps with held indexes, queried in any order, words overwritten in place *)
   {| op_name := "bitmap.Rank/history";
